@@ -388,7 +388,90 @@ theorem fresh_hit_after_rewrites (lazy : Bool) (st : UInt32) (it : Item) (evs : 
   exact hitsOnly_fresh lazy st it evs m h
 
 /-! ### Guards over the regenerated facts -/
+/-! ### Dump and reload
+
+An entry that came in through a dump (`dump_file` + restart, `/load_dump`) is subject to the same clauses:
+the lifetime of an answer is fixed when it is stored, whatever the configuration of the instance that loads
+it. The model is parametric in the regenerated fact that `readDump` stores the dumped cache expiry. -/
+
+def keepsTimes : Bool := Gen.Facts.c05ReadDumpKeepsTimes == some true
+
+theorem reload_keeps_dumped_times : keepsTimes = true := by decide
+
+/-- NXDOMAIN, SERVFAIL and empty NOERROR answers: store expiry = message expiry = the fixed lifetime,
+with and without lazy caching. -/
+theorem negative_answer_expiries (lazyTtl : Int) (m : Msg) (now : Nat) (it : Item)
+    (h : store lazyTtl m now = some it) (hneg : m.rcode = 3 ∨ m.rcode = 2 ∨ (m.rcode = 0 ∧ m.answer = [])) :
+    it.cacheExp = it.msgExp ∧
+    (m.rcode = 3 → it.msgExp = now + 30 * sec) ∧ (m.rcode = 2 → it.msgExp = now + 5 * sec) ∧
+    (m.rcode = 0 → it.msgExp = now + min (minTTL m).toNat 300 * sec) := by
+  unfold store at h
+  cases hadm : admission lazyTtl m with
+  | none => simp [hadm] at h
+  | some ab =>
+    obtain ⟨a, b⟩ := ab
+    simp [hadm] at h
+    subst h
+    obtain ⟨_, h3, h2, h0, _⟩ := lifetime_bound lazyTtl m a b hadm
+    simp only
+    rcases hneg with h | h | ⟨h, he⟩
+    · obtain ⟨ha, hb⟩ := h3 h
+      subst ha; subst hb
+      exact ⟨rfl, fun _ => rfl, fun h' => by omega, fun h' => by omega⟩
+    · obtain ⟨ha, hb⟩ := h2 h
+      subst ha; subst hb
+      exact ⟨rfl, fun h' => by omega, fun _ => rfl, fun h' => by omega⟩
+    · obtain ⟨ha, hb⟩ := h0 h he
+      subst hb
+      exact ⟨rfl, fun h' => by omega, fun h' => by omega, fun _ => by rw [ha]⟩
+
+/-- With the code as written a loaded entry carries the message and - to the second, never later - the three
+times of the entry that was dumped. -/
+theorem loaded_entry_times (readerLazy : Int) (it d : Item) (tl : Nat)
+    (h : loadEntry true readerLazy (dumpEntry it) tl = some d) :
+    d.msg = it.msg ∧ d.stored ≤ it.stored ∧ d.msgExp ≤ it.msgExp ∧ d.cacheExp ≤ it.cacheExp := by
+  simp only [loadEntry, dumpEntry, if_true] at h
+  split at h
+  · cases h
+  · cases h
+    exact ⟨rfl, Nat.div_mul_le_self _ _, Nat.div_mul_le_self _ _, Nat.div_mul_le_self _ _⟩
+
+/-- **A reloaded negative or empty answer leaves on time**: stored by an instance with any `lazy_cache_ttl`,
+dumped, loaded at any time by an instance with any `lazy_cache_ttl`: once its fixed lifetime
+(`negative_answer_expiries`: 30 s, 5 s, min(300 s, smallest TTL)) has run out it is not served, neither fresh nor stale. -/
+theorem reloaded_negative_answer_leaves_on_time (writerLazy readerLazy : Int) (st : UInt32) (m : Msg) (t0 tl t : Nat) (it : Item)
+    (hs : store writerLazy m t0 = some it) (hneg : m.rcode = 3 ∨ m.rcode = 2 ∨ (m.rcode = 0 ∧ m.answer = []))
+    (ht : it.msgExp < t) :
+    reloadRun keepsTimes writerLazy readerLazy st m t0 tl t = some .miss := by
+  rw [reload_keeps_dumped_times]
+  unfold reloadRun
+  rw [hs]
+  simp only [Option.map_some]
+  cases hl : loadEntry true readerLazy (dumpEntry it) tl with
+  | none => rfl
+  | some d =>
+    obtain ⟨_, _, _, hc⟩ := loaded_entry_times readerLazy it d tl hl
+    obtain ⟨he, _⟩ := negative_answer_expiries writerLazy m t0 it hs hneg
+    have : d.cacheExp < t := by omega
+    simp [serve, this]
+
+/-- Without lazy caching in the loading instance no reloaded answer is served once its smallest TTL has run out. -/
+theorem reloaded_answer_not_served_after_expiry (writerLazy readerLazy : Int) (st : UInt32) (m : Msg) (t0 tl t : Nat) (it : Item)
+    (hs : store writerLazy m t0 = some it) (hl : ¬ readerLazy > 0) (ht : it.msgExp ≤ t) :
+    reloadRun keepsTimes writerLazy readerLazy st m t0 tl t = some .miss := by
+  rw [reload_keeps_dumped_times]
+  unfold reloadRun
+  rw [hs]
+  simp only [Option.map_some]
+  cases hld : loadEntry true readerLazy (dumpEntry it) tl with
+  | none => rfl
+  | some d =>
+    obtain ⟨_, _, hm, _⟩ := loaded_entry_times readerLazy it d tl hld
+    simp only [hl, decide_false]
+    exact congrArg some (not_served_after_expiry st d t t (by omega))
+
 theorem facts_guard :
+    Gen.Facts.c05ReadDumpKeepsTimes = some true ∧
     Gen.Facts.c05NxdomainTtl = some 30 ∧ Gen.Facts.c05ServfailTtl = some 5 ∧
     Gen.Facts.c05EmptyAnswerMaxTtl = some 300 ∧ Gen.Facts.c05StaleTtl = some 5 ∧
     Gen.Facts.c05RcodeCases = some true ∧ Gen.Facts.c05SkipIfNonPositive = some true ∧
@@ -441,5 +524,12 @@ example : aliasRun true true false 5 false hour [.rewrite (setRR 5), .hit (T + 2
 /-- ... and were a hit to hand out the stored message itself, the second hit would age the already aged TTLs. -/
 example : aliasRun true false false 5 false hour [.hit (T + 201 * sec / 2), .hit (T + 401 * sec / 2)] =
     [.fresh ⟨0, false, [⟨false, 3500⟩], [], []⟩, .fresh ⟨0, false, [⟨false, 3300⟩], [], []⟩] := by decide
+
+/-- a NXDOMAIN answer stored at `T` by a lazy instance, dumped, loaded and asked 40.5 s later by a lazy instance -/
+def nx : Msg := ⟨3, false, [], [⟨false, 3600⟩], []⟩
+example : reloadRun true 3600 3600 5 nx T (T + 81 * sec / 2) (T + 81 * sec / 2) = some .miss := by decide
+example : reloadRun true 3600 3600 5 nx T (T + 21 * sec / 2) (T + 21 * sec / 2) = some (.fresh ⟨3, false, [], [⟨false, 3590⟩], []⟩) := by decide
+/-- The fact matters: with the expiry derived again from the local `lazy_cache_ttl` the answer is back as a stale hit. -/
+example : reloadRun false 3600 3600 5 nx T (T + 81 * sec / 2) (T + 81 * sec / 2) = some (.stale ⟨3, false, [], [⟨false, 5⟩], []⟩) := by decide
 
 end Props.C05
